@@ -478,6 +478,7 @@ func checkC20(p *Prog, res *Result, tier string) {
 	res.rule("C20-R3", "no request can leak an allocated revision (C04-R1..R3)", 10)
 	res.rule("C20-R7", "no request can wedge the node by making a goroutine wait for a lock it holds itself (C19-R5)", 1)
 	res.rule("C20-R8", "every position used with the backing array of a ring buffer (element index, slice bound) is the result of the ring's wrap function (x % capacity): a watch request cannot make the event cache index out of range", 8)
+	res.rule("C20-R9", "a metric collector is registered (MustRegister panics on duplicates) only on the miss edge of a registry lookup made under the registry's write lock", 3)
 	res.rule("C20-R6", "label values reach the prometheus client only through a UTF-8 sanitiser: request bytes used as a label value (a watched prefix) cannot make With() panic", 1)
 	res.rule("C20-R5", "no allocation is sized by an integer taken from a request (limit, revision, lease ...) without an upper bound: make() with such a size can exceed memory or panic outright", 3)
 	res.rule("C20-R4", "constant-index accesses to request-derived slices in the etcd request layer are dominated by a matching length test", 5)
@@ -669,6 +670,7 @@ func checkC20(p *Prog, res *Result, tier string) {
 	checkRequestSizedAllocations(p, res)
 	checkLabelValueSanitised(p, res)
 	checkRingIndexing(p, res)
+	checkRegisterOnce(p, res, "C20-R9")
 	checkStreamResponsesComplete(p, res, "C20-R2")
 	// R7: self-deadlock (C19-R5)
 	checkSelfDeadlock(p, p.lockContext(), res, "C20-R7")
@@ -1594,5 +1596,96 @@ func checkStreamResponsesComplete(p *Prog, res *Result, rule string) {
 	}
 	if n == 0 {
 		res.und(rule, "stream responses", "-", "no literal of StreamRangeResponse found")
+	}
+}
+
+// checkRegisterOnce: a collector is registered (MustRegister panics on a duplicate) only by the goroutine that, holding
+// the registry's write lock, looked the name up in the registry map and found nothing: the lookup follows the Lock, and
+// MustRegister sits on the nil edge of that lookup's result. A test on a value read before the lock was taken lets two
+// first emitters of one name both register.
+func checkRegisterOnce(p *Prog, res *Result, rule string) {
+	mp := p.ssaPkg("pkg/metrics/prometheus")
+	if mp == nil {
+		res.und(rule, "prometheus wrapper", "-", "package not found")
+		return
+	}
+	var fs []*ssa.Function
+	for _, f := range p.AllFuncs {
+		if f.Pkg == mp && f.Blocks != nil && f.Synthetic == "" {
+			fs = append(fs, f)
+		}
+	}
+	sort.Slice(fs, func(i, j int) bool { return funcName(fs[i]) < funcName(fs[j]) })
+	for _, f := range fs {
+		for _, c := range callsIn(f) {
+			cc := c.Common()
+			name := ""
+			if cc.IsInvoke() {
+				name = cc.Method.Name()
+			} else if sc := cc.StaticCallee(); sc != nil {
+				name = sc.Name()
+			}
+			if name != "MustRegister" {
+				continue
+			}
+			call, ok := c.(*ssa.Call)
+			if !ok {
+				continue
+			}
+			construct := funcName(f) + ": registration follows a miss under the write lock"
+			// the write lock taken before
+			var lock ssa.Instruction
+			for _, c2 := range callsIn(f) {
+				sc := c2.Common().StaticCallee()
+				if sc == nil || sc.Name() != "Lock" || sc.Signature.Recv() == nil {
+					continue
+				}
+				if !(isNamed(sc.Signature.Recv().Type(), "sync", "RWMutex") || isNamed(sc.Signature.Recv().Type(), "sync", "Mutex")) {
+					continue
+				}
+				if ins, ok := c2.(*ssa.Call); ok && instrDominates(ins, call) {
+					lock = ins
+				}
+			}
+			if lock == nil {
+				res.bad(rule, construct, p.pos(call.Pos()), "a collector is registered without the registry's write lock held: two first emitters of one metric name both register and the second MustRegister panics")
+				continue
+			}
+			// the guarding miss
+			good := false
+			for _, cf := range dominatingFacts(call.Block()) {
+				if cf.X == nil || !isNilConst(cf.Y) || !((cf.Op == token.EQL && cf.Want) || (cf.Op == token.NEQ && !cf.Want)) {
+					continue
+				}
+				for _, alt := range resolveAll(cf.X) {
+					lk, ok := alt.(*ssa.Lookup)
+					if !ok {
+						if ex, ok2 := alt.(*ssa.Extract); ok2 {
+							lk, ok = ex.Tuple.(*ssa.Lookup)
+						}
+					}
+					if !ok || lk == nil {
+						continue
+					}
+					if _, isMap := lk.X.Type().Underlying().(*types.Map); !isMap {
+						continue
+					}
+					if instrDominates(lock, lk) && instrDominates(lk, call) {
+						good = true
+					}
+				}
+				// .. and nothing older can reach the test
+				for _, alt := range resolveAll(cf.X) {
+					if lk, ok := alt.(*ssa.Lookup); ok && !instrDominates(lock, lk) {
+						good = false
+					}
+				}
+			}
+			if good {
+				res.ok(rule, construct, p.pos(call.Pos()), "MustRegister on the nil edge of a registry lookup made after Lock()")
+			} else {
+				res.bad(rule, construct, p.pos(call.Pos()), "the test that guards MustRegister is not on a registry lookup made under the write lock (a value read before Lock() is stale): two goroutines emitting a metric name for the first time both miss, both register, and the second MustRegister panics - there is no recovery in the request path, the node dies")
+			}
+		}
 	}
 }
